@@ -1,6 +1,6 @@
 (* Proofs/H2InfoProofs.v - the HTTP/2 read loop never gets stuck on interim responses (C07) *)
 From ReqV Require Import Lib.Bytes Model.H2Info.
-From Coq Require Import Lia.
+From Coq Require Import Lia ZifyBool.
 
 Lemma chan_send_nonblocking cap occ : chan_send cap occ false <> None.
 Proof. unfold chan_send. destruct (occ <? cap); discriminate. Qed.
@@ -100,3 +100,12 @@ Theorem h2_info_writer_irrelevant evs s :
   | _, _ => False
   end.
 Proof. exact (writer_irrelevant_gen evs s s eq_refl). Qed.
+
+(* an interim (1xx) header block that carries END_STREAM ends the call with an error at once,
+   whatever came before: nothing is left to wait for *)
+Theorem h2_interim_end_stream_is_error b s code :
+  (100 <= code <= 199)%Z -> h2_info_step b s code true = IErrEndStream.
+Proof.
+  intros H. unfold h2_info_step.
+  replace ((100 <=? code) && (code <=? 199))%Z with true by lia. reflexivity.
+Qed.
